@@ -17,6 +17,7 @@ package disk
 //@ ghost evq GSeq
 //@ ghost qobs Int
 //@ ghost resN Int
+//@ ghost evN Int
 
 //@ pred entKey(x) = ikey(strkey(#entry.key[x]))
 //@ pred entSod(x) = #lruItem.sizeOnDisk[itemOf(x)]
@@ -79,8 +80,8 @@ package disk
 //@ func (c *SizedLRU) appendEvictionToQueue(e *entry)
 //@   trusted
 //@   requires c != nil && e != nil
-//@   modifies evq
-//@   ensures evq == qadd(old(evq), ref(e))
+//@   modifies evq, evN
+//@   ensures evq == qadd(old(evq), ref(e)) && evN == old(evN) + 1
 
 //@ func (c *SizedLRU) removeElement(e *list.Element)
 //@   serves C03 C04 C05 C07 C17
@@ -88,12 +89,12 @@ package disk
 //@   requires[C07] lock: muHeld
 //@   requires elem: e != nil && e.owner == ref(c.ll)
 //@   requires nowrap: 0 - B62() <= c.currentSize && c.currentSize <= B62() && 0 - B62() <= c.uncompressedSize && c.uncompressedSize <= B62()
-//@   modifies c.currentSize, c.uncompressedSize, c.ll.seq, mapof(c.cache), #list.Element.owner, evq
+//@   modifies c.currentSize, c.uncompressedSize, c.ll.seq, mapof(c.cache), #list.Element.owner, evq, evN
 //@   ensures[C03,C07] index: lruIndex(c)
 //@   ensures[C03,C05] seq: c.ll.seq == seqremove(old(c.ll.seq), payload(e.Value)) && member(old(c.ll.seq), payload(e.Value))
 //@   ensures[C03] cur: c.currentSize == old(c.currentSize) - r4kc(entSod(payload(e.Value)))
 //@   ensures[C03] unc: c.uncompressedSize == old(c.uncompressedSize) - r4kc(entSize(payload(e.Value)))
-//@   ensures[C04] queued: evq == qadd(old(evq), payload(e.Value))
+//@   ensures[C04] queued: evq == qadd(old(evq), payload(e.Value)) && evN == old(evN) + 1
 //@   ensures owner: e.owner == 0 && (forall o Int :: o != ref(e) ==> #list.Element.owner[o] == old(#list.Element.owner)[o])
 
 //@ func (c *SizedLRU) RemoveElement(elem *list.Element)
@@ -101,7 +102,7 @@ package disk
 //@   requires lruInv(c)
 //@   requires[C07] lock: muHeld
 //@   requires[C03,C07] current: elem != nil && elem.owner == ref(c.ll)
-//@   modifies c.currentSize, c.uncompressedSize, c.ll.seq, mapof(c.cache), #list.Element.owner, evq
+//@   modifies c.currentSize, c.uncompressedSize, c.ll.seq, mapof(c.cache), #list.Element.owner, evq, evN
 //@   ensures[C03,C07] inv: lruInv(c)
 
 // Safe variant for callers whose element was looked up in an earlier critical
@@ -110,7 +111,7 @@ package disk
 //@   serves C03 C04 C07
 //@   requires lruInv(c)
 //@   requires[C07] lock: muHeld
-//@   modifies c.currentSize, c.uncompressedSize, c.ll.seq, mapof(c.cache), #list.Element.owner, evq
+//@   modifies c.currentSize, c.uncompressedSize, c.ll.seq, mapof(c.cache), #list.Element.owner, evq, evN
 //@   ensures[C03,C07] inv: lruInv(c)
 
 //@ func (c *SizedLRU) Get(key string) (lruItem, *list.Element)
@@ -131,7 +132,7 @@ package disk
 //@   serves C03 C05 C07 C17
 //@   requires lruInv(c)
 //@   requires[C07] lock: muHeld
-//@   modifies c.currentSize, c.reservedSize, c.uncompressedSize, c.ll.seq, mapof(c.cache), #list.Element.owner, evq, qobs, c.totalDiskSizePeak
+//@   modifies c.currentSize, c.reservedSize, c.uncompressedSize, c.ll.seq, mapof(c.cache), #list.Element.owner, evq, evN, qobs, c.totalDiskSizePeak
 //@   gmodifies held, resN
 //@   gensures (result == nil ==> held == old(held) + size) && (result != nil ==> held == old(held)) && resN == old(resN) + 1
 //@   ensures[C03,C07] inv: lruInv(c)
@@ -149,7 +150,7 @@ package disk
 //@   loop 0 invariant sizes: lruSizes(c)
 //@   loop 0 invariant frame: c.reservedSize == old(c.reservedSize) && c.maxSize == old(c.maxSize) && c.maxSizeHardLimit == old(c.maxSizeHardLimit)
 //@   loop 0 invariant[C05] order: dropped(c.ll.seq, old(c.ll.seq))
-//@   loop 0 modifies c.currentSize, c.uncompressedSize, c.ll.seq, mapof(c.cache), #list.Element.owner, evq
+//@   loop 0 modifies c.currentSize, c.uncompressedSize, c.ll.seq, mapof(c.cache), #list.Element.owner, evq, evN
 //@   loop 0 decreases seqlen(c.ll.seq)
 //@   call removeElement#* asserts[C05] lru-first: payload(arg1.Value) == seqback(c.ll.seq)
 //@   call removeElement#* asserts[C05] pressure: size + c.currentSize > c.maxSize
@@ -160,12 +161,14 @@ package disk
 //@   requires[C07] lock: muHeld
 //@   requires sizes: 0 <= value.sizeOnDisk && value.sizeOnDisk <= B62() && 0 <= value.size && value.size <= B62()
 //@   assume nologicaloverflow: c.uncompressedSize + value.size + 4096 <= B62()
-//@   modifies c.currentSize, c.uncompressedSize, c.ll.seq, mapof(c.cache), #list.Element.owner, #list.Element.Value, evq, qobs, c.totalDiskSizePeak,
+//@   modifies c.currentSize, c.uncompressedSize, c.ll.seq, mapof(c.cache), #list.Element.owner, #list.Element.Value, evq, evN, qobs, c.totalDiskSizePeak,
 //@            #lruItem.size, #lruItem.sizeOnDisk, #lruItem.legacy, #lruItem.random
 //@   ensures[C03,C07] inv: lruInv(c)
 //@   gmodifies adopted
 //@   gensures (ok ==> adopted == old(adopted) + 1) && (!ok ==> adopted == old(adopted))
-//@   ensures[C03,C05] rejected: !ok ==> (c.currentSize == old(c.currentSize) && c.uncompressedSize == old(c.uncompressedSize) && c.ll.seq == old(c.ll.seq) && evq == old(evq))
+//@   ensures[C03,C05] rejected: !ok ==> (c.currentSize == old(c.currentSize) && c.uncompressedSize == old(c.uncompressedSize) && c.ll.seq == old(c.ll.seq) && evq == old(evq) && evN == old(evN))
+//@   ensures[C04,C05] overwritequeued: (ok && old(has(c.cache, strkey(key)))) ==> evN >= old(evN) + 1
+//@   loop 0 invariant queued: evN >= old(evN) && (old(has(c.cache, strkey(key))) ==> evN >= old(evN) + 1)
 //@   ensures[C05] oversize: r4k(value.sizeOnDisk) > c.maxSize ==> !ok
 //@   ensures frame: c.reservedSize == old(c.reservedSize) && c.maxSize == old(c.maxSize)
 //@   loop 0 invariant index: lruIndex(c)
@@ -173,7 +176,7 @@ package disk
 //@   loop 0 invariant unc: c.uncompressedSize == sum4k(c.ll.seq, #lruItem.size) - uncompressedSizeDelta
 //@   loop 0 invariant bounds: 0 - B62() <= sizeDelta && sizeDelta <= B62() && 0 - B62() <= uncompressedSizeDelta && uncompressedSizeDelta <= B62() && c.currentSize <= c.maxSize && c.reservedSize + sizeDelta <= c.maxSize &&
 //@       0 - B62() <= c.currentSize && 0 - B62() <= c.uncompressedSize && c.uncompressedSize <= B62() && c.uncompressedSize + uncompressedSizeDelta <= B62()
-//@   loop 0 modifies c.currentSize, c.uncompressedSize, c.ll.seq, mapof(c.cache), #list.Element.owner, evq
+//@   loop 0 modifies c.currentSize, c.uncompressedSize, c.ll.seq, mapof(c.cache), #list.Element.owner, evq, evN
 //@   loop 0 invariant frame: c.reservedSize == old(c.reservedSize) && c.maxSize == old(c.maxSize) && 0 <= c.reservedSize && 0 < c.maxSize && c.maxSize <= BMAX()
 //@   loop 0 decreases seqlen(c.ll.seq)
 //@   call removeElement#* asserts[C05] lru-first: payload(arg1.Value) == seqback(c.ll.seq)
